@@ -127,6 +127,7 @@ class Facts:
         if not os.environ.get("RM_NO_ANCHOR_RECOVERY") and not os.environ.get("RM_NO_INLINE"):
             import inline
             self.anchor_notes += inline.inline_new_helpers(d, anchors._load())
+            self.anchor_notes += inline.inline_new_closures(d, anchors._load())
         self.meta = d["meta"]
         if H is not None and self.meta.get("nonce") != H:
             raise InfraError("fact file nonce mismatch")
